@@ -19,6 +19,7 @@ type Clause struct {
 	File  string
 	Line  int
 	Kind  string
+	Explicit bool // the clause names its properties itself (`requires[C10] ...`)
 }
 
 type FuncContract struct {
@@ -202,7 +203,7 @@ func ParseContracts(dir, pkgPath string) (*PkgContracts, error) {
 		if err != nil {
 			return nil, fmt.Errorf("%s:%d: cannot parse %q: %v", file, no, text, err)
 		}
-		return &Clause{Text: text, Expr: e, Props: parseProps(props), File: file, Line: no, Kind: kind}, nil
+		return &Clause{Text: text, Expr: e, Props: parseProps(props), File: file, Line: no, Kind: kind, Explicit: len(parseProps(props)) > 0}, nil
 	}
 	for _, l := range ls {
 		m := clauseRe.FindStringSubmatch(l.text)
